@@ -1,4 +1,4 @@
-\* one channel, logs <= 3, probes (touch / append / audit), page sizes 1 and 2: measured below
+\* one channel, logs <= 3, probes (touch / append / audit), page sizes 1 and 2: 38,766 distinct / 259,507 generated states, ~20 s with 4 workers
 SPECIFICATION Spec
 CONSTANTS
   ChanSeq <- MCChanSeq1
